@@ -642,7 +642,7 @@ func c08oracle(c *Ctx, op byte, k *vmCase, res vmResult) {
 		if op == 0x98 && wantErr == "range" && (res.class == "ok" || res.class == "falseVMResult") {
 			sig = sigLshift
 		}
-		c.Fail(sig, fmt.Sprintf("args=%s: %s", hxList(k.args), bad))
+		failCapped(c, sig, fmt.Sprintf("args=%s: %s", hxList(k.args), bad))
 	}
 }
 
